@@ -249,6 +249,28 @@ def judge(cases, short_static=0, with_source=True):
                     want = ""
                 if got != want or (isinstance(want, bool) != isinstance(got, bool)):
                     out.append((case, klass(case, "source"), "decompiled initialiser of %s %r: '%s' denotes %r, encoded %r" % (name, case, txt, got, want)))
+        # ---- history: the values must still be the encoded ones after an unrelated mutation of the parsed object
+        #      (renaming the class re-resolves names all over the file; none of the cases refers to the renamed class)
+        vm2 = dex.DEX(raw)
+        c2 = vm2.get_classes()[0]
+        c2.set_name("Lp/W;")
+        fs2 = {f.get_name(): f for f in c2.get_fields()}
+        for i, case in enumerate(cases[:nstatic]):
+            iv = fs2["f%03d" % i].get_init_value()
+            got, want = (ag_val(vm2.CM, iv) if iv is not None else "<missing>"), expect(case)
+            if got != want or type(got) != type(want):
+                out.append((case, klass(case, "static") + ":after:class-rename",
+                            "after renaming the class: static value of f%03d %r: got %r, encoded %r" % (i, case, got, want)))
+        ad2 = c2.annotations_directory_item
+        st2 = vm2.CM.get_annotation_set_item(ad2.get_class_annotations_off())
+        ai2 = vm2.CM.get_annotation_item(st2.get_annotation_off_item()[0].get_annotation_off())
+        els2 = {vm2.CM.get_raw_string(e.get_name_idx()): e.get_value() for e in ai2.get_annotation().get_elements()}
+        for i, case in enumerate(cases):
+            ev = els2.get("e%03d" % i)
+            got, want = (ag_val(vm2.CM, ev) if ev is not None else "<missing>"), expect(case)
+            if got != want or type(got) != type(want):
+                out.append((case, klass(case, "annotation") + ":after:class-rename",
+                            "after renaming the class: annotation element e%03d %r: got %r, encoded %r" % (i, case, got, want)))
     except Exception as e:     # noqa
         import traceback
         out.append((cases[0], "exception:%s" % type(e).__name__, traceback.format_exc()[-800:]))
